@@ -210,3 +210,56 @@ func wholeSliceToStream(c *Ctx, p *Prog, rule, fnKey string) {
 		ob.HoldNT("return conn.tx.Write(b)")
 	}
 }
+
+// wholeSliceFromStream: the mirror image for Read — every return that can deliver bytes hands back count AND
+// error of one (*cipher.StreamReader).Read(b) on the caller's slice.  The stream reader decrypts whatever
+// the connection delivered even when it delivered it together with an error; a hand-written "check err, then
+// XORKeyStream" hands the last bytes of a stream to the caller still encrypted.
+func wholeSliceFromStream(c *Ctx, p *Prog, rule, fnKey string) {
+	ob := c.Obl(rule, fnKey+"#stream-reader-result", "every return of Read that can deliver bytes is the (n, err) pair of the cipher.StreamReader's Read(b) on the caller's slice: bytes that arrive together with an error are decrypted like all others")
+	fn := p.Func(fnKey)
+	if fn == nil {
+		ob.Undecide("not found")
+		return
+	}
+	c.Touch(p.FuncKey(fn))
+	var b *ssa.Parameter
+	for _, q := range fn.Params {
+		if isByteSlice(q.Type()) {
+			b = q
+		}
+	}
+	bad := ""
+	n := 0
+	for _, r := range returnsOf(fn) {
+		if len(r.Results) != 2 {
+			continue
+		}
+		if k, ok := intConst(unspill(r.Results[0])); ok && k == 0 {
+			continue // delivers nothing
+		}
+		c0, i0 := callOf(unspill(r.Results[0]))
+		c1, i1 := callOf(unspill(r.Results[1]))
+		okR := false
+		if c0 != nil && c0 == c1 && i0 == 0 && i1 == 1 {
+			recv, m, args := recvOf(c0)
+			if m == "Read" && len(args) == 1 && unspill(args[0]) == ssa.Value(b) && recv != nil &&
+				strings.HasSuffix(types.TypeString(recv.Type(), nil), "crypto/cipher.StreamReader") {
+				okR = true
+			}
+		}
+		if !okR {
+			bad = "the return at " + p.InstrPos(r) + " is not the (n, err) of StreamReader.Read(b) on the caller's slice"
+		} else {
+			n++
+		}
+	}
+	if n == 0 && bad == "" {
+		bad = "no delivering return found"
+	}
+	if bad != "" {
+		ob.Violate("%s", bad)
+	} else {
+		ob.HoldNT("return conn.rx.Read(b)")
+	}
+}
